@@ -1034,6 +1034,42 @@ def r6_c_null(L):
             if k is not None:
                 L.ob("C14.R8", F, "trx_ctrl_read_cb", "fixed offset `%s` lies inside the response buffer" % ctext(n),
                      "< sizeof(buf)", k, 0 <= k < ext, tu.line(n))
+    # ... and inside the TEXT received: a string operation that starts at buf + K reads from the terminator on unless the K
+    # octets before it are known to be text.  What establishes that is a successful comparison of the prefix with a
+    # literal (`strncmp(buf, "RSP ", 4) == 0`: 4 octets without NUL); an offset behind a successful comparison with the
+    # pending command (not a literal: its length is not known here) is not decided by this rule.
+    import re as _re
+    g8 = CCFG(tu, f)
+    n_off = 0
+    for n in walk(tu.body(f)):
+        if not (kind(n) == "BinaryOperator" and n.get("opcode") == "+" and ctext(kids(n)[0]) == "buf"):
+            continue
+        k = tu.fold(kids(n)[1])
+        if k is None or k <= 0:
+            continue
+        try:
+            lits = g8.guard_lits(g8.node_of(n))
+        except AnalysisError:
+            continue
+        known, undecided = 0, False
+        for t, pol in lits:
+            m_ = _re.fullmatch(r'(?:strncmp|memcmp|strncasecmp)\(\(?buf(?: \+ (\d+))?\)?, "((?:[^"\\]|\\.)*)", (\d+)\)', t)
+            m2 = _re.fullmatch(r'(?:strncmp|memcmp|strncasecmp)\("((?:[^"\\]|\\.)*)", \(?buf(?: \+ (\d+))?\)?, (\d+)\)', t)
+            if m_ or m2:
+                off, lit, cnt = (m_.group(1), m_.group(2), m_.group(3)) if m_ else (m2.group(2), m2.group(1), m2.group(3))
+                if pol is False and "\\" not in lit:
+                    known = max(known, int(off or 0) + min(int(cnt), len(lit)))
+            elif _re.search(r"\bbuf\b", t) and not _re.fullmatch(r"\d+ <=? read_len", t):
+                undecided = True
+            elif _re.fullmatch(r"\d+ <=? read_len", t) and pol:
+                c_ = int(t.split()[0]) + (1 if " < " in t else 0)
+                known = max(known, c_)
+        if undecided and known < k:
+            continue
+        n_off += 1
+        L.ob("C14.R8", F, "trx_ctrl_read_cb", "string operation at `%s`: the %d octets before it are received text (signature compared over at least that many characters)" % (ctext(n), k),
+             ">= %d octets established by the dominating comparisons" % k, known, known >= k, tu.line(n))
+    L.floor("C14.R8", "fixed offsets into the response text decided", n_off, 1)
 
 
 def r10_list_head(L):
@@ -1206,6 +1242,8 @@ def r11_clock_path(L, repo):
     def accept(s):
         # explicit raises and value-dependent partial operations on queued fields are decided where the values are
         # sanitised (R2 for the parser, R4 for stored attributes); this path adds the operations that fail whatever the data
+        if s.kind == "raise":
+            return None     # an explicit raise nothing catches before it leaves the thread ends the clock for every transceiver
         if s.kind != "format":
             return "value-dependent: decided by C14.R2 / C14.R4"
         return None
